@@ -510,28 +510,32 @@ func (st *ex6State) handler(sv *ex6Server) server6.Handler {
 	}
 }
 
-// advertiseUnusable reports whether the error of a failed exchange is the builder's refusal
-// of an ADVERTISE that really lacks what the error names. For Request() the advertise is
-// known; for RapidSolicit() it is internal, and the refusal is believed only if some
-// delivered ADVERTISE lacks the named option.
+// advertiseUnusable reports whether a failed exchange that sent no REQUEST had an
+// ADVERTISE in hand that cannot be turned into one: the statement wants the advertised
+// client id, server id and IA_NA carried into the REQUEST, so an ADVERTISE lacking one of
+// them is the servers' doing and whatever error the client reports for it is not judged
+// (neither its type nor its text: an earlier version matched the builder's message, which
+// made a reworded refusal a false alarm). For Request() the advertise is the caller's
+// argument; for RapidSolicit() it is internal, and the refusal is believed only if an
+// ADVERTISE delivered before the operation returned really lacks one of the three on the wire
+// (read with the harness's own TLV reader).
 func (st *ex6State) advertiseUnusable(o *ex6Op) bool {
-	msg := o.err.Error()
-	var code dhcpv6.OptionCode
-	switch {
-	case strings.Contains(msg, "Client ID cannot be nil in ADVERTISE"):
-		code = dhcpv6.OptionClientID
-	case strings.Contains(msg, "Server ID cannot be nil in ADVERTISE"):
-		code = dhcpv6.OptionServerID
-	case strings.Contains(msg, "IA_NA cannot be nil in ADVERTISE"):
-		code = dhcpv6.OptionIANA
-	default:
-		return false
-	}
 	if o.adv != nil {
-		return o.adv.GetOneOption(code) == nil
+		return o.adv.GetOneOption(dhcpv6.OptionClientID) == nil || o.adv.GetOneOption(dhcpv6.OptionServerID) == nil || o.adv.GetOneOption(dhcpv6.OptionIANA) == nil
 	}
 	for _, r := range st.rx {
-		if r.m != nil && r.m.MessageType == dhcpv6.MessageTypeAdvertise && r.m.GetOneOption(code) == nil {
+		if (o.returned && r.seq > o.retSeq) || len(r.bytes) < 4 || r.bytes[0] != 2 {
+			continue
+		}
+		opts, ok := splitV6Opts(r.bytes[4:])
+		if !ok {
+			continue
+		}
+		have := map[int]bool{}
+		for _, x := range opts {
+			have[x.code] = true
+		}
+		if !have[1] || !have[2] || !have[3] {
 			return true
 		}
 	}
@@ -611,9 +615,9 @@ func (st *ex6State) checkPairing(v *vio, o *ex6Op, name string, got *dhcpv6.Mess
 	if !acceptable(got) {
 		v.add("Y-type", "%s: returned a %s, which this call must not accept", name, got.MessageType)
 	}
-	src := st.findSource(got, o.invSeq, before)
+	src := st.findSource(got, 0, before) // when it arrived is C10's clause, not C13's
 	if src == nil {
-		v.add("Y-provenance", "%s: the returned %s is not the decoding of a datagram delivered during the call", name, got.MessageType)
+		v.add("Y-provenance", "%s: the returned %s is not the decoding of any datagram delivered to the client before the call returned", name, got.MessageType)
 		return
 	}
 	if reqPhase && src.trig == int(dhcpv6.MessageTypeSolicit) && !src.corrupt && !(st.forced && st.xidReq == st.xidSol) {
@@ -839,9 +843,9 @@ func (st *ex6State) oracle(v *vio) {
 				break
 			}
 			var inWin []*ex6Rx          // acceptable answers delivered after the last SOLICIT went out
-			var early []*dhcpv6.Message // ADVERTISEs the receive loop may still have had in hand at that point
+			var early []*dhcpv6.Message // ADVERTISEs for this transaction the client had taken from the socket before that (a reading-ahead client may still hold them)
 			for _, r := range st.rx {
-				if (r.doneSeq != 0 && r.doneSeq < o.invSeq) || r.seq > first.seq || r.m == nil || xidOf6(r.m) != xs {
+				if r.seq > first.seq || r.m == nil || xidOf6(r.m) != xs {
 					continue
 				}
 				if r.m.MessageType != dhcpv6.MessageTypeAdvertise && r.m.MessageType != dhcpv6.MessageTypeReply {
